@@ -38,16 +38,30 @@ Definition rd16 (data : bytes) (off : N) (bigendian : bool) : outcome N :=
 (* alignTo8 := func(size uint16) int { return int((size + 7) & ^uint16(7)) } *)
 Definition align8_u16 (s : N) : N := N.land (wrap16 (s + 7)) 65528.
 
-Definition dec_attribute (bigendian : bool) (data : bytes) : outcome attribute' :=
+(* Switch for the repair notes/fixes/c06-attribute-v2-padding.patch (property C06, Props/C06Reader.v):
+   [false] = the code before it: name / datatype / dataspace are padded to multiples of 8 bytes in attribute message
+             versions 1 AND 2 (`if version < 3`);
+   [true]  = the repaired code: version 1 only (`if version < 2`), as the format specification and H5Oattr.c have it; and an
+             attribute of version 2 / 3 whose flags announce a shared datatype or dataspace is an error (with the correct
+             framing such a message would otherwise be decoded, its shared message reference taken for a description).
+   [dec_attribute] is the variant of [attribute_v2_unpadded]; the ties of C11 / C07 read from the source tree under test which
+   variant it implements (tools/props/c06switch.py) and compare with dec_attribute_gen of that variant. *)
+Definition attribute_v2_unpadded : bool := true.
+
+Definition dec_attribute_gen (repaired : bool) (bigendian : bool) (data : bytes) : outcome attribute' :=
   if blen data <? 8 then Err else
   version <- index data 0;;
+  flags <- index data 1;;
+  (* repaired code: versions 2 and 3 with a shared datatype (flag bit 0) or dataspace (bit 1) are refused - the field holds a
+     shared message reference, not a description *)
+  if repaired && (2 <=? version) && negb (N.land flags 3 =? 0) then Err else
   nameSize <- rd16 data 2 bigendian;;
   dtSize <- rd16 data 4 bigendian;;
   dsSize <- rd16 data 6 bigendian;;
   let offset := if 3 <=? version then 9 else 8 in
   if blen data <? offset + nameSize then Err else
   name <- (if 0 <? nameSize then slice data offset (offset + nameSize - 1) else Ok []);;
-  let adv (s : N) := if version <? 3 then align8_u16 s else s in
+  let adv (s : N) := if (if repaired then version <? 2 else version <? 3) then align8_u16 s else s in
   let offset := offset + adv nameSize in
   if blen data <? offset + dtSize then Err else
   dtd <- slice data offset (offset + dtSize);;
@@ -63,6 +77,9 @@ Definition dec_attribute (bigendian : bool) (data : bytes) : outcome attribute' 
     Ok {| atp_name := name; atp_dt := dt; atp_ds := ds; atp_data := Some d |}
   else
     Ok {| atp_name := name; atp_dt := dt; atp_ds := ds; atp_data := None |}.
+
+Definition dec_attribute (bigendian : bool) (data : bytes) : outcome attribute' :=
+  dec_attribute_gen attribute_v2_unpadded bigendian data.
 
 Definition proj_attribute (x : attribute) : attribute' :=
   {| atp_name := at_name x; atp_dt := proj_datatype (at_dt x); atp_ds := proj_dataspace (at_ds x);
